@@ -174,6 +174,12 @@ func (f *renameOnCloseFile) Abort() error {
 	if err := os.Remove(f.finalPath); err != nil && !os.IsNotExist(err) {
 		errs = append(errs, err)
 	}
+	// A failed Close may already have renamed (and even fsynced) a complete
+	// file into place; make its removal durable too, or a power loss brings
+	// the discarded file back into directory scans.
+	if err := syncDir(filepath.Dir(f.finalPath)); err != nil {
+		errs = append(errs, err)
+	}
 	return errors.Join(errs...)
 }
 
@@ -199,12 +205,24 @@ func (fs *FileSystemDataStore) TombstoneFile(ctx context.Context, filePointerByt
 	finalPath := string(filePointerBytes)
 
 	var errs []error
-	if err := os.Remove(finalPath); err != nil && !os.IsNotExist(err) {
+	removed := false
+	if err := os.Remove(finalPath); err == nil {
+		removed = true
+	} else if !os.IsNotExist(err) {
 		errs = append(errs, err)
 	}
 	if strings.HasSuffix(finalPath, ".dat") {
 		tempPath := strings.TrimSuffix(finalPath, ".dat") + ".tmp"
-		if err := os.Remove(tempPath); err != nil && !os.IsNotExist(err) {
+		if err := os.Remove(tempPath); err == nil {
+			removed = true
+		} else if !os.IsNotExist(err) {
+			errs = append(errs, err)
+		}
+	}
+	if removed {
+		// Make the removal durable: a tombstoned file that a power loss
+		// brings back would be picked up by directory scans again.
+		if err := syncDir(filepath.Dir(finalPath)); err != nil {
 			errs = append(errs, err)
 		}
 	}
